@@ -173,6 +173,20 @@ func init() {
 		}
 		return Agg{st.newFile(p, false), IfaceV{}}, true
 	})
+	stat := func(st *State, th *Thread, a []Value, _ ssa.Instruction) (Value, bool) {
+		p := st.goString(a[0], "Stat path")
+		_, isFile := st.fs.files[p]
+		if !isFile && !st.fs.dirs[p] {
+			return Agg{IfaceV{}, st.notExistErr(p)}, true
+		}
+		o := st.newObj(1, "const", "FileInfo: "+p)
+		o.owner = -1
+		ptr := st.ptrTo(o, 0)
+		st.errMsgs[ptr.C] = p
+		return Agg{IfaceV{T: st.p.opaqueFileInfoType(), V: ptr}, IfaceV{}}, true
+	}
+	reg("os.Stat", stat)
+	reg("os.Lstat", stat)
 	reg("(*os.File).Write", func(st *State, th *Thread, a []Value, _ ssa.Instruction) (Value, bool) {
 		h := st.fileHandle(a[0], "File.Write")
 		if h.closed {
